@@ -404,6 +404,18 @@ func TestVerif_C13_RefCountThroughMux(t *testing.T) {
 				st.Fail(rt, "C13/refcount/underlying-not-closed", "udp mux: underlying connection still open after the last handle was closed")
 			}
 		}
+		// the ufrag is used again at once (an agent restarted with the same ufrag): the fresh connection is live
+		// and the watcher of the closed one leaves it alone
+		fresh, err := mux.GetConn("ufragX", base.local)
+		if err != nil {
+			st.Fail(rt, "C13/refcount/reuse-after-last-close", "udp mux: GetConn right after the last handle was closed: %v", err)
+		} else {
+			c11Jitter(rapid.IntRange(0, 40).Draw(rt, "jitterAfterReuse"))
+			if _, err := fresh.WriteTo([]byte("x"), &net.UDPAddr{IP: net.IPv4(198, 51, 100, 1), Port: 4000}); err != nil {
+				st.Fail(rt, "C13/refcount/reuse-after-last-close", "udp mux: the connection handed out right after the previous one of the same ufrag was closed is unusable: %v", err)
+			}
+			_ = fresh.Close()
+		}
 		st.Record(vfHash(n, order), true, "udp-mux")
 		if st.WantSample() {
 			st.Sample(func() string { return fmt.Sprintf("udp mux: %d handles, close order %v", n, order) })
@@ -455,6 +467,22 @@ func TestVerif_C13_RefCountThroughTCPMux(t *testing.T) {
 			} else if !closed {
 				st.Fail(rt, "C13/refcount/underlying-not-closed", "tcp mux: underlying connection still open after the last handle was closed")
 			}
+		}
+		fresh, err := mux.GetConnByUfrag("ufragT", false, localIP)
+		if err != nil {
+			st.Fail(rt, "C13/refcount/reuse-after-last-close", "tcp mux: GetConnByUfrag right after the last handle was closed: %v", err)
+		} else {
+			c11Jitter(rapid.IntRange(0, 40).Draw(rt, "jitterAfterReuse"))
+			if err := fresh.SetReadDeadline(time.Now().Add(time.Second)); err != nil {
+				st.Fail(rt, "C13/refcount/reuse-after-last-close", "tcp mux: the connection handed out right after the previous one of the same ufrag was closed is unusable: %v", err)
+			}
+			mux.mu.Lock()
+			cur, ok := mux.getConn("ufragT", false, localIP)
+			mux.mu.Unlock()
+			if !ok || cur.isClosed() {
+				st.Fail(rt, "C13/refcount/reuse-after-last-close", "tcp mux: the fresh connection of the reused ufrag is not registered (registered=%v)", ok)
+			}
+			_ = fresh.Close()
 		}
 		st.Record(vfHash("tcp", n, order), true, "tcp-mux")
 		if st.WantSample() {
